@@ -409,6 +409,71 @@ func main() {
 			t.Outcome("ok")
 		})
 
+		// A masking reader/writer reused through Reset starts a new stream at offset 0, whatever
+		// it carried before and whether or not the source/destination and the key are the same
+		// values as before (two consecutive frames of one connection often share both).
+		r.Part("E3c-Reset-starts-at-offset-zero", func(t *explore.T) {
+			k1, k2 := keys[4], keys[1]
+			for before := 0; before <= 9; before++ {
+				for _, sameEnd := range []bool{true, false} {
+					for _, sameKey := range []bool{true, false} {
+						before, sameEnd, sameKey := before, sameEnd, sameKey
+						t.Do(func() string {
+							return fmt.Sprintf("CipherReader: %d bytes read, Reset(same source=%v, same key=%v), read 11 more", before, sameEnd, sameKey)
+						}, func() *explore.Fail {
+							data := fill(before+11, 5)
+							src := env.NewSrc(append([]byte{}, data...))
+							cr := wsutil.NewCipherReader(src, k1)
+							if before > 0 {
+								io.ReadFull(cr, make([]byte, before))
+							}
+							key := k1
+							if !sameKey {
+								key = k2
+							}
+							var next io.Reader = src
+							want := refmodel.XOR(data[before:], key, 0)
+							if !sameEnd {
+								next = env.NewSrc(append([]byte{}, data[before:]...))
+							}
+							cr.Reset(next, key)
+							got, err := io.ReadAll(cr)
+							if err != nil || !bytes.Equal(got, want) {
+								return explore.Failf("CipherReader-after-Reset", "err=%v got %x want %x", err, got, want)
+							}
+							return nil
+						})
+						t.Do(func() string {
+							return fmt.Sprintf("CipherWriter: %d bytes written, Reset(same destination=%v, same key=%v), write 11 more", before, sameEnd, sameKey)
+						}, func() *explore.Fail {
+							data := fill(before+11, 6)
+							d := env.NewDst()
+							cw := wsutil.NewCipherWriter(d, k1)
+							cw.Write(data[:before])
+							key := k1
+							if !sameKey {
+								key = k2
+							}
+							d2 := d
+							if !sameEnd {
+								d2 = env.NewDst()
+							}
+							mark := len(d2.Bytes())
+							cw.Reset(d2, key)
+							if _, err := cw.Write(data[before:]); err != nil {
+								return explore.Failf("CipherWriter-after-Reset-error", "%v", err)
+							}
+							if got, want := d2.Bytes()[mark:], refmodel.XOR(data[before:], key, 0); !bytes.Equal(got, want) {
+								return explore.Failf("CipherWriter-after-Reset", "got %x want %x", got, want)
+							}
+							return nil
+						})
+					}
+				}
+			}
+			t.Outcome("ok")
+		})
+
 		r.Part("E4-frame-helpers", func(t *explore.T) {
 			key := keys[1]
 			sizes := []int{}
